@@ -907,7 +907,7 @@ def ob_locate(et, how, seed):
     return Verdict(DISCHARGED, backend="native gmsh mesh", detail=f"err {r['err']:.1e}")
 
 
-def _native_locate_dense(et, organised, S=1.0):
+def _native_locate_dense(et, organised, S=1.0, offset=None):
     """finer box meshes: every midpoint of a pair of vertices of an element (edges and, for quadrangles / hexahedra / prisms, diagonals), every element centre and every
     node, queried ONE AT A TIME and all at once: a linear field is reproduced."""
     from EasyFEA import ElemType
@@ -919,12 +919,16 @@ def _native_locate_dense(et, organised, S=1.0):
     else:
         mesh = dom.Mesh_Extrude([], [0, 0, S], [4], ElemType[et], isOrganised=organised)
     turn = (lambda X_: X_)
-    if S != 1.0:
+    off = np.zeros(3) if offset is None else np.array(offset, dtype=float) * (1.0 if _dim(et) == 3 else np.array([1.0, 1.0, 0.0]))
+    if S != 1.0 or offset is not None:
         # a generic orientation, so that edges are not aligned with the axes and the coordinates carry round-off proportional to the size
         from EasyFEA.Geoms import Rotate as _Rot
         ax = (0, 0, 1) if dim == 2 else (1, 2, 0.5)
         mesh.Rotate(33.0, (0, 0, 0), ax)
-        turn = (lambda X_: _Rot(X_, 33.0, (0, 0, 0), ax))
+        if offset is not None:
+            # ... and carried far from the origin: the round-off of the coordinates follows their magnitude, not the size of the elements
+            mesh.Translate(*off)
+        turn = (lambda X_: _Rot(X_, 33.0, (0, 0, 0), ax) + off)
     co = np.asarray(mesh.coord)
     g = mesh.groupElem
     nv = {"TRI": 3, "QUAD": 4, "TETRA": 4, "HEXA": 8, "PRISM": 6}["".join(ch for ch in et if not ch.isdigit())]
@@ -940,7 +944,7 @@ def _native_locate_dense(et, organised, S=1.0):
     rng = np.random.default_rng(2)
     if len(pts) > 350:
         pts = pts[rng.choice(len(pts), 350, replace=False)]
-    f = lambda X_: 1 + (2 * X_[:, 0] - 3 * X_[:, 1] + 0.5 * X_[:, 2]) / S
+    f = lambda X_: 1 + (2 * (X_[:, 0] - off[0]) - 3 * (X_[:, 1] - off[1]) + 0.5 * (X_[:, 2] - off[2])) / S
     u = f(co)
     want = f(pts)
     single = np.array([float(np.ravel(mesh.Evaluate_dofsValues_at_coordinates(p_[None, :], u))[0]) for p_ in pts])
@@ -957,8 +961,8 @@ def _native_locate_dense(et, organised, S=1.0):
                 worst_point=pts[k].tolist(), got=float(single[k]), expected=float(want[k]))
 
 
-def ob_locate_dense(et, organised, S=1.0):
-    r = _native_locate_dense(et, organised, S)
+def ob_locate_dense(et, organised, S=1.0, offset=None):
+    r = _native_locate_dense(et, organised, S, offset)
     if r["single_wrong"] or r["batch_wrong"]:
         raise Refuted(f"{et} box mesh ({'structured' if organised else 'unstructured'}, {r['Ne']} elements): a linear nodal field evaluated at {r['nq']} points (edge / diagonal midpoints, element centres) is wrong "
                       f"at {r['single_wrong']} points queried one at a time and {r['batch_wrong']} queried together; e.g. at {r['worst_point']} the value is {r['got']:.6g}, expected {r['expected']:.6g}",
@@ -1253,6 +1257,10 @@ def build(tier, seed):
         obs.append(Ob(f"C08.locate.scaled.{et}.L{S:g}", ob_locate_dense, (et, organised, S), "X", (f"{GE}::_GroupElem.Get_pointsInElem", f"{GE}::_GroupElem._Get_coord_Near"),
                       bound="one box mesh of side L (64-800 elements), up to 350 special query points + 800 random interior points", timeout=1200,
                       clause="point location does not depend on the unit of length: points on edges / diagonals / centres of a mesh of side L are located, a linear field is reproduced"))
+    for et, organised in (("TRI3", False), ("TETRA4", False), ("QUAD4", True)):
+        obs.append(Ob(f"C08.locate.far.{et}", ob_locate_dense, (et, organised, 1.0, (3e5, -2e5, 1e5)), "X", (f"{GE}::_GroupElem.Get_pointsInElem", f"{GE}::_GroupElem._Get_coord_Near"),
+                      bound="one unit box mesh turned by 33 degrees and carried to (3e5, -2e5, 1e5), up to 350 special query points + 800 random interior points", timeout=1200,
+                      clause="point location does not depend on where the mesh lies: points on edges / diagonals / centres of a mesh far from the origin are located, a linear field is reproduced"))
     for et in ("TRI3", "QUAD4", "TRI6"):
         obs.append(Ob(f"C08.locate.pixels.{et}", ob_locate_pixels, (et,), "X", (f"{GE}::_GroupElem._Get_coord_Near", "EasyFEA/FEM/_mesh.py::Mesh.Evaluate_dofsValues_at_coordinates"),
                       bound="5 x 5 integer grids on a 4 x 4 domain, two origins, two listing orders", clause="integer-typed query points are located like the same points given as floats", timeout=600))
